@@ -397,7 +397,75 @@ func c08NumberWork(w *h.W) {
 	}
 }
 
+// (f) atoms by text: all strings of <= 2 characters over characters of 1, 2, 3 and 4 bytes (one-character
+// atoms are held differently from longer ones), as atoms and as functor names
+func c08AtomWork(w *h.W) {
+	chars := []string{"a", "z", "é", "α", "猫", "𝒳", "À", "µ"}
+	var names []string
+	names = append(names, "")
+	for _, c := range chars {
+		names = append(names, c)
+	}
+	for _, c1 := range chars {
+		for _, c2 := range chars {
+			names = append(names, c1+c2)
+		}
+	}
+	var atoms, fun1, fun2 []string
+	for i, n := range names {
+		q := ref.QuoteAtomAlways(n)
+		atoms = append(atoms, q)
+		if n != "" && (i%2 == 0 || w.Thorough()) {
+			fun1 = append(fun1, q+"(x)")
+			fun2 = append(fun2, "f("+q+", 1)")
+		}
+	}
+	for _, s := range [][]string{atoms, fun1, fun2} {
+		if !w.Mine() {
+			continue
+		}
+		c := &c08LawCase{Law: true, Terms: s}
+		w.GuardFor(c, 5*time.Minute)
+		exp, act, ok := c08LawRun(c)
+		w.Unguard()
+		w.Eval(1)
+		w.States(len(s))
+		w.Transitions(len(s) * len(s))
+		w.Traces(1)
+		w.Nontrivial("atoms:" + s[1])
+		w.Outcome("laws-atoms")
+		if !ok {
+			w.Violation("laws(atoms): "+exp, c, exp, act, len(s))
+		}
+	}
+	// sorting
+	sub := []string{"'α'", "'αβ'", "'β'", "'αα'", "b", "ab", "a", "'猫'", "'猫又'", "'é'"}
+	for l := 2; l <= w.Pick(3, 4); l++ {
+		seqs(l-1, len(sub), func(idx []int) bool {
+			if !w.Mine() {
+				return true
+			}
+			pc := &h.ProgCase{Independent: true}
+			for _, last := range sub {
+				var el, ps []string
+				for _, j := range idx {
+					el = append(el, sub[j])
+				}
+				el = append(el, last)
+				for i, e := range el {
+					ps = append(ps, fmt.Sprintf("%s-%d", e, i))
+				}
+				lst := "[" + strings.Join(el, ", ") + "]"
+				pc.Steps = append(pc.Steps, h.Query(rd("sort("+lst+", S)"), 2), h.Query(rd("setof(E, member(E, "+lst+"), S)"), 2), h.Query(rd("keysort(["+strings.Join(ps, ", ")+"], S)"), 2))
+			}
+			runProgCase(w, "sort-atoms", pc, l)
+			return true
+		})
+	}
+}
+
 func c08Work(w *h.W) {
+	c08AtomWork(w)
 	c08NumberWork(w)
 	c08LawWork(w)
 	c08PairWork(w)
@@ -416,7 +484,7 @@ func c08Replay(b []byte) (string, string, bool) {
 func init() {
 	h.Register(&h.Check{
 		ID: "C08",
-		Rule: "(a) all ordered pairs over a universe of 66 terms (variables, floats, integers incl. numerically equal 1/1.0, atoms whose interning order differs from their text order, compounds varying arity/name/arguments, lists in several notations, strings): compare/3 and the six comparison predicates, each side written separately; (b) order laws (one of < = >, '=' only for identical terms, antisymmetry, transitivity) on the complete comparison matrix computed inside ONE call for term sets with shared variables and for sliding windows of the ground universe; (c) sort/2 and setof/3 on all lists of length <= L over a 8-10 term sub-universe, keysort/2 on all lists of length <= K over 4 keys with the position as payload, and on all 2^13 lists of length 13, 14 (16, 20) over two or three keys (stability needs > 12 elements); (d) every pair of abstract lists through every pair of the 13 construction recipes: compare/3 and sort/2; (e) numbers: the complete comparison matrix with the order laws over the integer boundary grid (around 0, +-2^31, +-2^32, +-2^53, +-2^62, min/max) and the float grid of C07, bare and nested in 5 compound/list shapes; the six comparison predicates on all pairs of the bare grid; sort/2, msort/2, setof/3 and keysort/2 on all lists of length <= 3 (4) over 12 extreme values. Non-trivial = decided.",
+		Rule: "(a) all ordered pairs over a universe of 66 terms (variables, floats, integers incl. numerically equal 1/1.0, atoms whose interning order differs from their text order, compounds varying arity/name/arguments, lists in several notations, strings): compare/3 and the six comparison predicates, each side written separately; (b) order laws (one of < = >, '=' only for identical terms, antisymmetry, transitivity) on the complete comparison matrix computed inside ONE call for term sets with shared variables and for sliding windows of the ground universe; (c) sort/2 and setof/3 on all lists of length <= L over a 8-10 term sub-universe, keysort/2 on all lists of length <= K over 4 keys with the position as payload, and on all 2^13 lists of length 13, 14 (16, 20) over two or three keys (stability needs > 12 elements); (d) every pair of abstract lists through every pair of the 13 construction recipes: compare/3 and sort/2; (e) numbers: the complete comparison matrix with the order laws over the integer boundary grid (around 0, +-2^31, +-2^32, +-2^53, +-2^62, min/max) and the float grid of C07, bare and nested in 5 compound/list shapes; the six comparison predicates on all pairs of the bare grid; sort/2, msort/2, setof/3 and keysort/2 on all lists of length <= 3 (4) over 12 extreme values; (f) atoms by text: the comparison matrix with the order laws over all 73 strings of <= 2 characters over 8 characters of 1..4 bytes (one-character atoms are held differently from longer ones), as atoms, as functor names and as arguments; sorts of all short lists over 10 such atoms. Non-trivial = decided.",
 		Explanation: "state = a pair/list of terms; transition = one comparison or sort executed on the real interpreter and compared with the reference standard order (Var < Float < Integer < Atom < Compound; arity, name, arguments) - pairs whose order hinges on two distinct unbound variables are only subject to the in-call law checks",
 		Assumptions: []string{"reference: ref/order exactly as the property states the order", "-0.0 versus 0.0 is not in the universe (the two are '=' here although they are written differently)"},
 		Work:        c08Work,
